@@ -58,7 +58,7 @@ class Sut:
                 pass
         shutil.rmtree(self.base, ignore_errors=True)
 
-    def run(self, capture: bytes, keylog, argv_opts, probes=None, pn_preset=None, cpu=60, extra_runs=None,
+    def run(self, capture: bytes, keylog, argv_opts, probes=None, pn_preset=None, cpu=120, extra_runs=None,
             cwd_sub=None, env=None, infile_name="in.pcapng", keep=False, pre_out=None):
         """argv_opts: list of extra CLI options (without -i/-o/-s).  keylog: bytes or None (no -s option).
         extra_runs: optional list of dict(capture, keylog, argv_opts) executed IN THE SAME PROCESS before/after
